@@ -799,7 +799,11 @@ impl<Meta: ObjectMeta> AppendArchive<Meta> {
         self.file.seek(SeekFrom::Start(
             usize_to_u64(MAGIC_SIZE) + ArchiveMeta::size()
         ))?;
+        #[cfg(feature = "verif-hooks")]
+        crate::verif::point("archive.finalize", || "index");
         self.index.write(&mut self.file)?;
+        #[cfg(feature = "verif-hooks")]
+        crate::verif::point("archive.finalize", || "flush");
         self.file.flush()?;
         Ok(())
     }
@@ -1406,6 +1410,8 @@ impl Storage {
 
     /// Sets the storage to the given length.
     pub fn set_len(&mut self, len: u64) -> Result<(), ArchiveError> {
+        #[cfg(feature = "verif-hooks")]
+        crate::verif::point("archive.set_len", || len.to_string());
         self.file.lock().set_len(len)?;
         self.mmap()?;
         Ok(())
@@ -1670,6 +1676,8 @@ impl<'a> StorageWrite<'a> {
     pub fn write(
         &mut self, data: &[u8]
     ) -> Result<(), ArchiveError> {
+        #[cfg(feature = "verif-hooks")]
+        crate::verif::point("archive.write", || data.len().to_string());
         match self.0 {
             #[cfg(unix)]
             WriteInner::Mmap { ref mut mmap, ref mut pos } => {
